@@ -25,6 +25,8 @@ func init() {
 	externals["(*sync.Mutex).Unlock"] = func(fr *frame, args []value) value { return nil }
 	externals["(*sync.RWMutex).RLock"] = func(fr *frame, args []value) value { return nil }
 	externals["(*sync.RWMutex).RUnlock"] = func(fr *frame, args []value) value { return nil }
+	externals["internal/stringslite.Clone"] = func(fr *frame, args []value) value { return args[0] }
+	externals["strings.Clone"] = func(fr *frame, args []value) value { return args[0] }
 	// sync.Pool: Get returns the most recently Put object of this path (LIFO, the behaviour of a
 	// single P), else New(). An object handed to Put becomes package-level state: it is reported
 	// through the global write barrier and every later write to it is reported as well.
